@@ -188,7 +188,28 @@ def run(ctx):
                 rets_ = [x.value for x in ast.walk(gn) if isinstance(x, ast.Return)]
                 body = rets_[0] if len(rets_) == 1 else None
         good = False
-        if isinstance(body, ast.BinOp) and isinstance(body.op, ast.Mod):
+        # a replacement table indexed by the matched character: TABLE[m.group(k)] with TABLE[c] == "_x%04X_" % ord(c) for every c
+        if isinstance(body, ast.Subscript) and isinstance(body.slice, ast.Call) and isinstance(body.slice.func, ast.Attribute) \
+                and body.slice.func.attr == "group":
+            tblv = prog.const(body.value, esc.module, None, esc.cls)
+            k = prog.const(body.slice.args[0], esc.module) if body.slice.args else 0
+            one_group = isinstance(pat, str) and pat.startswith("(") and pat.endswith(")")
+            if isinstance(tblv, dict) and tblv and (k == 0 or (k == 1 and one_group)):
+                good = all(isinstance(c_, str) and len(c_) == 1 and v_ == "_x%04X_" % ord(c_) for c_, v_ in tblv.items()) \
+                    and isinstance(got, set) and {ord(c_) for c_ in tblv} >= got
+                body = body if good else body
+                if not good:
+                    ctx.violation("R4.1", "escape-format", "the replacement table does not map every escaped character to `_x%04X_` of its code point",
+                                  file=esc.file, line=esc.line)
+                    body = "reported"
+        if body == "reported":
+            pass
+        elif good:
+            ctx.ok("R4.1", "escape-format", sample={"replacement": "table of _x%04X_ % ord(ch)"})
+            body = "reported"
+        if body == "reported":
+            pass
+        elif isinstance(body, ast.BinOp) and isinstance(body.op, ast.Mod):
             fmt = prog.const(body.left, esc.module)
             arg = body.right
             whole = False
@@ -198,7 +219,9 @@ def run(ctx):
                 one_group = isinstance(pat, str) and pat.startswith("(") and pat.endswith(")")
                 whole = k == 0 or (k == 1 and one_group)
             good = fmt == "_x%04X_" and whole
-        if body is None:
+        if body == "reported":
+            pass
+        elif body is None:
             ctx.error("CT_RegularTextRun._escape_ctrl_chars", "replacement function not recognised")
         elif good:
             ctx.ok("R4.1", "escape-format", sample={"replacement": "_x%04X_ % ord(ch)"})
